@@ -75,7 +75,11 @@ def _apply_op(world, ev):
     except Exception as e:  # noqa: BLE001
         return ("exc", type(e).__name__)
     with sched.atomic():
-        return ("ok", _shallow(r))
+        obs = _shallow(r)
+        if op in ("iter", "keys", "values", "items") and hasattr(world.handle_objs[h], "keys") and isinstance(r, list):
+            # the ORDER in which a mapping enumerates its keys is not part of any property (merges may reorder)
+            obs = "[" + ",".join(sorted(_shallow(x) for x in r)) + "]"
+        return ("ok", obs)
 
 
 class ProgramRunner:
